@@ -8,7 +8,7 @@ same targets (during_command_family), and a second request for a target whose ou
 under way (oob_family)."""
 import random, sqlite3
 from common import *
-from proj import Project
+from proj import Project, kill_orphans
 import sched
 
 ASSUMPTIONS = [
@@ -194,10 +194,7 @@ def _finish(p, timeout):
             pass
         out, err = p.communicate()
         rc = -999
-    try:
-        os.killpg(p.pid, signal.SIGKILL)
-    except (ProcessLookupError, PermissionError):
-        pass
+    kill_orphans(p.pid)
     return rc, err.decode("utf-8", "replace")
 
 
